@@ -29,6 +29,20 @@ META = {
         "FLOOR": {"quick": 300, "thorough": 1500},
         "ASSUMPTIONS": ["what is stored is read through RecordTensor.read / the ring model validated by C01"],
     },
+    "C13": {
+        "RULE": "(a) RecordTensor built with (dt, duration, inclusive) incl. non-representable ratios over 7 storage "
+                "kinds, id-filled to several fill levels and pointer positions, then 1-4 assignments of dt / duration / "
+                "inclusive judged by the literal size formula and read(k) before/after; (b) add/edit/remove of shape "
+                "constraints on an initialised record; (c) random reconstrain add/edit/remove + value assignment "
+                "sequences on ShapedTensor (strict and non-strict, positive and negative dims, buffer/Parameter/None/"
+                "empty) against a dict model. One evaluation = one assignment / reconstrain judged. distinct = "
+                "(part, operation, grow/shrink/no-op, storage state and kind, size classes, strictness, dim sign) abstractions.",
+        "REQUIRED": ["resize_readbacks", "temporal.grow.initialised", "temporal.shrink.initialised",
+                     "temporal.grow.uninitialised", "temporal.shrink.uninitialised", "recshape_ops",
+                     "shaped_reconstrain_ops", "shaped_refusals", "valid_flag_checks"],
+        "FLOOR": {"quick": 150, "thorough": 250},
+        "ASSUMPTIONS": ["read(k) (validated by C01) is the observation k steps before present"],
+    },
 }
 
 NOT_APPLICABLE = {}
@@ -53,5 +67,13 @@ MANIFEST_TEXT = {
                 "after each insert, scalar and tensor forms are cross-checked and range errors are demanded.",
         "note": _NOTE,
         "technique": "runtime monitoring: argument-spy oracle + list-model comparison on the real RecordTensor.select/insert over generated on/off-grid times",
+    },
+    "C13": {
+        "text": "Held on every resize / reconstrain explored: each assignment of dt, duration, inclusive or a shape "
+                "constraint on the real RecordTensor / ShapedTensor is followed by a comparison of the record size with the "
+                "literal formula, of read(k) with the values read before (unique ids; zeros in new slots) and of the "
+                "constraint bookkeeping with a dictionary model, including refusals that must have no side effects.",
+        "note": _NOTE,
+        "technique": "runtime monitoring: before/after observation monitor + dict reference model on the real temporal setters and reconstrain over generated configurations",
     },
 }
